@@ -386,7 +386,9 @@ func runC18(r *core.Run) (bool, string) {
 		"each directory carries at most one hostile feature class (" + strings.Join(c18HostileClasses, ", ") + "); distinct by the directory's (file names, declaration list); " +
 		"expected tests come from go/parser, observed tests from parsing the -go and -coq output of the real test_gen binary; the -go output is compiled as generated_test.go next to the package; " +
 		"prior state of the -out target (prior_state_* keys): for further plain directories × {-go, -coq} × {absent, empty, identical, longer / shorter / same-length real outputs of test_gen on edited versions of the same package (functions added, removed, renamed, failing_ toggled), garbage longer / shorter, trailing newline, output of the other mode, read-only file, symlink, stdout}, " +
-		"plus three edits in a row regenerated into the same two files (the Go one inside the package directory, compiled at the end): after an exit 0 the file must equal byte for byte a generation into a new file, whose test list is itself compared with go/parser; distinct by (state, mode, package[, step])")
+		"plus three edits in a row regenerated into the same two files (the Go one inside the package directory, compiled at the end): after an exit 0 the file must equal byte for byte a generation into a new file, whose test list is itself compared with go/parser; distinct by (state, mode, package[, step]); " +
+		"where -out points and what it is called (out_name_* keys): 6 locations (other directory, sub-directory of the package, the package directory; absolute and relative paths) × 10 base-name classes (names of the package's own source / non-Go files, the conventional _test.go names, swapped extensions, new names) × {-go, -coq} on private copies of further plain directories: the file must equal the stdout of the same generation and no other file of the package may change (in-package targets that are themselves sources are only recorded); " +
+		"kind of directory entry (entry_kind_* keys): one special entry per directory (regular / read-only file, symlinks to files outside and inside the directory, through a second link, named _test.go, directory and symlink-to-directory named x.go, dangling symlink); expected tests = go/parser over exactly the GoFiles that `go list -json` reports; directories go list rejects are skipped")
 	r.Assume("go/parser and the Go compiler agree with the language specification on what a top-level function is")
 	r.Assume("a function named exactly `test` or `failing_test` is read as outside \"named test…\"; its treatment is only noted")
 	tg, err := r.BuildTestGen()
@@ -394,6 +396,15 @@ func runC18(r *core.Run) (bool, string) {
 		r.Inconclusive("build-test_gen-failed")
 		fmt.Fprintln(os.Stderr, err)
 		return false, "test_gen could not be built: " + err.Error()
+	}
+	if sig := replaySig(r.Replay); strings.HasPrefix(sig, c18OutNameSig) || strings.HasPrefix(sig, c18EntrySig) {
+		// both workloads are functions of the seed only
+		if strings.HasPrefix(sig, c18OutNameSig) {
+			c18OutNames(r, tg)
+		} else {
+			c18EntryKindsWorkload(r, tg)
+		}
+		return r.Evals() > 0, "the replayed workload could not be run"
 	}
 	if strings.HasPrefix(replaySig(r.Replay), c18PriorSig) {
 		// replay of a finding of the prior-state workload: its cases are a function of the seed only
@@ -634,7 +645,17 @@ func runC18(r *core.Run) (bool, string) {
 	r.Set("directories", len(plan))
 
 	if r.Replay == "" {
+		phase := map[string]float64{"directories": time.Since(r.Start).Seconds()}
+		t := time.Now()
 		c18PriorStates(r, tg)
+		phase["prior_state"] = time.Since(t).Seconds()
+		t = time.Now()
+		c18OutNames(r, tg)
+		phase["out_name"] = time.Since(t).Seconds()
+		t = time.Now()
+		c18EntryKindsWorkload(r, tg)
+		phase["entry_kind"] = time.Since(t).Seconds()
+		r.Set("workload_wall_s", phase)
 	}
 
 	// usage errors: noted only (not part of the statement)
@@ -654,6 +675,9 @@ func runC18(r *core.Run) (bool, string) {
 	}
 	if r.GetCount("expected_tests_total") < 20 {
 		return false, "too few test functions in the generated directories"
+	}
+	if r.NumViolations() == 0 && (r.GetCount("out_name_files_compared_with_stdout") < 50 || r.GetCount("entry_kind_go_files_compiled_ok") < 5) {
+		return false, "-out location/name workload: fewer than 50 files compared with stdout, or entry-kind workload: fewer than 5 directories judged and compiled"
 	}
 	if r.NumViolations() == 0 && (r.GetCount("prior_state_files_compared_with_fresh_generation") < 40 || r.GetCount("prior_state_edit_sequences_completed") < 2) {
 		return false, "prior-state workload: fewer than 40 regenerated files compared with a fresh generation, or fewer than 2 edit sequences completed"
